@@ -20,6 +20,7 @@ from collections import OrderedDict
 from copy import deepcopy
 from functools import partial
 from itertools import chain
+from os import path
 from textwrap import indent
 
 from black import Mode, format_str
@@ -567,6 +568,12 @@ def file(node, filename, mode="a", skip_black=False):
                 string_normalization=False,
             ),
         )
+    if "a" in mode and path.isfile(filename):
+        # Never glue the appended definition onto an unterminated last line
+        with open(filename, "rt") as f:
+            existing = f.read()
+        if existing and not existing.endswith("\n"):
+            src = "\n{src}".format(src=src)
     with open(filename, mode) as f:
         f.write(src)
 
